@@ -15,16 +15,21 @@ import (
 	"errors"
 	"fmt"
 	"os"
+	"sort"
+	"strings"
 	"sync"
 	"sync/atomic"
 	"testing"
+	_ "unsafe" // go:linkname
 
+	"github.com/safing/portbase/config"
 	"github.com/safing/portbase/database"
 	"github.com/safing/portbase/database/record"
 	"github.com/safing/portbase/database/storage"
 	_ "github.com/safing/portbase/database/storage/bbolt"
 	_ "github.com/safing/portbase/database/storage/hashmap"
 	"github.com/safing/portbase/formats/dsd"
+	"github.com/safing/portbase/runtime"
 
 	"verifharness/internal/stats"
 )
@@ -37,6 +42,31 @@ var (
 	sharedDBs = map[string]string{}
 )
 
+// configDBController is the config package's (unexported) controller variable
+// of its injected "config" database. The config module sets it in its start
+// routine (registerAsDatabase); the harness does the same registration with the
+// exported pieces (database.Register, database.InjectDatabase,
+// config.StorageInterface) and stores the controller here, so that the config
+// side pushes its updates exactly as in a started system. Starting the module
+// system instead is not an option under the race detector: the config module's
+// own "update log level" event hook uses a getter that is not safe for
+// concurrent use and is run concurrently for successive change events.
+//
+//go:linkname configDBController github.com/safing/portbase/config.dbController
+var configDBController *database.Controller
+
+func registerConfigDatabase() error {
+	if err := registerDB("config", database.StorageTypeInjected, false); err != nil {
+		return err
+	}
+	ctrl, err := database.InjectDatabase("config", &config.StorageInterface{})
+	if err != nil {
+		return err
+	}
+	configDBController = ctrl
+	return nil
+}
+
 func TestMain(m *testing.M) {
 	dir, err := os.MkdirTemp("/dev/shm", "verif-c14-")
 	if err != nil {
@@ -47,6 +77,12 @@ func TestMain(m *testing.M) {
 		fmt.Println("cannot initialize database:", err)
 		os.Exit(2)
 	}
+	if err := registerConfigDatabase(); err != nil {
+		fmt.Println("cannot inject the config database:", err)
+		os.Exit(2)
+	}
+	// no config file: every SetConfigOption would rewrite it
+	config.VerifSetConfigFile("")
 	code := m.Run()
 	stats.Flush(code)
 	_ = database.Shutdown()
@@ -58,6 +94,8 @@ const (
 	beHashmap  = "hashmap"
 	beBbolt    = "bbolt"
 	beInjected = "injected"
+	beRegistry = "registry" // an injected runtime.Registry with a value provider that pushes updates
+	beConfig   = "config"   // the config module's own injected database
 )
 
 // place: a database and a key namespace in it.
@@ -68,6 +106,7 @@ type place struct {
 	ns      string
 	inj     *injStorage
 	ctrl    *database.Controller // injected only
+	reg     *regProvider         // registry only
 }
 
 func registerDB(name, storageType string, shadow bool) error {
@@ -104,10 +143,103 @@ func openPlace(backend string, shadow bool) (*place, error) {
 			return nil, err
 		}
 		p.ctrl = ctrl
+	case beRegistry:
+		p.shadow = false
+		p.dbName = fmt.Sprintf("c14-rg-%d", dbCounter.Add(1))
+		if err := registerDB(p.dbName, database.StorageTypeInjected, false); err != nil {
+			return nil, err
+		}
+		reg := runtime.NewRegistry()
+		if err := reg.InjectAsDatabase(p.dbName); err != nil {
+			return nil, err
+		}
+		p.ns = "r/"
+		p.reg = &regProvider{recs: map[string]*record.Wrapper{}}
+		push, err := reg.Register(p.ns, p.reg)
+		if err != nil {
+			return nil, err
+		}
+		p.reg.push = push
+	case beConfig:
+		// one "config" database per process: a fresh key prefix per case
+		p.shadow = false
+		p.dbName = "config"
+		p.ns = fmt.Sprintf("c14/%d/", nsCounter.Add(1))
+		for _, k := range keyPool {
+			err := config.Register(&config.Option{
+				Name:         "verif c14 " + k,
+				Key:          p.ns + k,
+				Description:  "verif c14 option",
+				OptType:      config.OptTypeInt,
+				DefaultValue: 0,
+			})
+			if err != nil {
+				return nil, err
+			}
+		}
 	default:
 		return nil, errors.New("unknown backend " + backend)
 	}
 	return p, nil
+}
+
+// ---------------------------------------------------------------- runtime value provider
+
+// regProvider is a runtime.ValueProvider over a map, registered for the
+// prefix "r/" of an injected runtime.Registry. It hands out copies.
+type regProvider struct {
+	mu   sync.Mutex
+	recs map[string]*record.Wrapper
+	push runtime.PushFunc
+}
+
+func (p *regProvider) Get(keyOrPrefix string) ([]record.Record, error) {
+	p.mu.Lock()
+	defer p.mu.Unlock()
+	keys := make([]string, 0, len(p.recs))
+	for k := range p.recs {
+		if strings.HasPrefix(k, keyOrPrefix) {
+			keys = append(keys, k)
+		}
+	}
+	sort.Strings(keys)
+	out := make([]record.Record, 0, len(keys))
+	for _, k := range keys {
+		out = append(out, copyWrapper(p.recs[k]))
+	}
+	return out, nil
+}
+
+// Set is called with r locked by the database system.
+func (p *regProvider) Set(r record.Record) (record.Record, error) {
+	w, ok := r.(*record.Wrapper)
+	if !ok {
+		return nil, errors.New("c14: provider only stores wrappers")
+	}
+	p.mu.Lock()
+	p.recs[w.DatabaseKey()] = copyWrapper(w)
+	p.mu.Unlock()
+	return r, nil
+}
+
+// setAndPush is a change of the runtime value on the provider's side.
+func (p *regProvider) setAndPush(w *record.Wrapper) {
+	p.mu.Lock()
+	p.recs[w.DatabaseKey()] = copyWrapper(w)
+	p.mu.Unlock()
+	w.Lock()
+	p.push(w)
+	w.Unlock()
+}
+
+func (p *regProvider) snapshot() []*record.Wrapper {
+	p.mu.Lock()
+	defer p.mu.Unlock()
+	out := make([]*record.Wrapper, 0, len(p.recs))
+	for _, w := range p.recs {
+		out = append(out, copyWrapper(w))
+	}
+	return out
 }
 
 func (p *place) fullKey(k string) string { return p.dbName + ":" + p.ns + k }
